@@ -2,27 +2,50 @@
    (sub-byte raw types, src/framebuffer.rs:153-172, translated as a template over the abstract raw type), regenerated from
    the source on every run by translate/r2c (coq/Gen/SrcFbSetPixel.v, coq/Gen/SrcFbSetPixelBits.v).  WIDTH / HEIGHT (const
    generics of the impl), bits per pixel, the data order and `c.into()` (colour -> raw, property C12's subject) are
-   parameters; `self.data[i]` / `self.data[i] = v` are bounds-checked list access / update (Rust panics out of range; the
-   C10 theorems show the index is inside).  The data afterwards equals Framebuffer.fb_set_pixel, for i32 coordinates.
+   parameters; the generated definitions are option-valued: `self.data[i]` / `self.data[i] = v` out of range (a Rust
+   panic) is None.  For i32 coordinates they panic exactly when the point is inside the framebuffer and the index outside the
+   data array, and otherwise the data afterwards equals Framebuffer.fb_set_pixel.
    Not covered: the multi-byte set_pixel (body of `impl_bytes!`: the method name `$to_bytes_fn` is a macro parameter).
    Statements only (proofs: Proofs/SrcFbSetPixel.v, Proofs/SrcFbSetPixelBits.v). *)
 From EG Require Import Base.Prelude Base.Casts Model.Geometry Model.Rawdata Model.Framebuffer Gen.SrcGeometry Gen.SrcFbSetPixel Gen.SrcFbSetPixelBits Proofs.SrcFbSetPixel Proofs.SrcFbSetPixelBits.
 
+(* in_fb W H p: p is inside the WIDTH x HEIGHT framebuffer.  The generated set_pixel is None (panic) exactly when p is inside and
+   the index is outside the data array (never with the N that CHECK_N demands: the `_never_panics` theorems). *)
 Theorem C10_src_set_pixel_u8_is_model : forall alt W H into fb p c,
   i32_min <= px p <= i32_max -> i32_min <= py p <= i32_max ->
-  Framebuffer_data (src_Framebuffer_set_pixel W H into fb p c)
-  = fb_set_pixel (FbCfg U8 alt W H) (Framebuffer_data fb) (px p, py p) (into c).
+  src_Framebuffer_set_pixel W H into fb p c
+  = if in_fb W H p && negb (py p * W + px p <? Z.of_nat (length (Framebuffer_data fb)))
+    then None
+    else Some (Build_Framebuffer (fb_set_pixel (FbCfg U8 alt W H) (Framebuffer_data fb) (px p, py p) (into c)) (Framebuffer_n_assert fb)).
 Proof. exact src_fb_set_pixel_u8_eq. Qed.
+
+Theorem C10_src_set_pixel_u8_never_panics : forall alt W H into fb p c,
+  i32_min <= px p <= i32_max -> i32_min <= py p <= i32_max -> W * H <= Z.of_nat (length (Framebuffer_data fb)) ->
+  src_Framebuffer_set_pixel W H into fb p c
+  = Some (Build_Framebuffer (fb_set_pixel (FbCfg U8 alt W H) (Framebuffer_data fb) (px p, py p) (into c)) (Framebuffer_n_assert fb)).
+Proof. exact src_fb_set_pixel_u8_some. Qed.
 
 Theorem C10_src_set_pixel_bits_is_model : forall t alt W H into fb p c,
   t = U1 \/ t = U2 \/ t = U4 -> 0 <= W ->
   i32_min <= px p <= i32_max -> i32_min <= py p <= i32_max ->
-  Framebuffer_data (src_Framebuffer_set_pixel_bits t W H (bits t) alt into fb p c)
-  = fb_set_pixel (FbCfg t alt W H) (Framebuffer_data fb) (px p, py p) (into c).
+  src_Framebuffer_set_pixel_bits t W H (bits t) alt into fb p c
+  = if in_fb W H p && negb (bits_byte_index t W p <? Z.of_nat (length (Framebuffer_data fb)))
+    then None
+    else Some (Build_Framebuffer (fb_set_pixel (FbCfg t alt W H) (Framebuffer_data fb) (px p, py p) (into c)) (Framebuffer_n_assert fb)).
 Proof. exact src_fb_set_pixel_bits_eq. Qed.
 
+Theorem C10_src_set_pixel_bits_never_panics : forall t alt W H into fb p c,
+  t = U1 \/ t = U2 \/ t = U4 -> 0 <= W ->
+  i32_min <= px p <= i32_max -> i32_min <= py p <= i32_max ->
+  (W * bits t + 7) / 8 * H <= Z.of_nat (length (Framebuffer_data fb)) ->
+  src_Framebuffer_set_pixel_bits t W H (bits t) alt into fb p c
+  = Some (Build_Framebuffer (fb_set_pixel (FbCfg t alt W H) (Framebuffer_data fb) (px p, py p) (into c)) (Framebuffer_n_assert fb)).
+Proof. exact src_fb_set_pixel_bits_some. Qed.
+
 Example C10_src_setpixel_nonvacuous :
-  Framebuffer_data (src_Framebuffer_set_pixel 2 2 (fun c => c) (Build_Framebuffer [0; 0; 0; 0] tt) (P 1 1) 9) = [0; 0; 0; 9] /\
-  Framebuffer_data (src_Framebuffer_set_pixel 2 2 (fun c => c) (Build_Framebuffer [0; 0; 0; 0] tt) (P 2 1) 9) = [0; 0; 0; 0] /\
-  Framebuffer_data (src_Framebuffer_set_pixel_bits U2 5 2 2 false (fun c => c) (Build_Framebuffer [255; 255; 255; 255] tt) (P 1 1) 1) = [255; 255; 223; 255].
+  option_map Framebuffer_data (src_Framebuffer_set_pixel 2 2 (fun c => c) (Build_Framebuffer [0; 0; 0; 0] tt) (P 1 1) 9) = Some [0; 0; 0; 9] /\
+  option_map Framebuffer_data (src_Framebuffer_set_pixel 2 2 (fun c => c) (Build_Framebuffer [0; 0; 0; 0] tt) (P 2 1) 9) = Some [0; 0; 0; 0] /\
+  src_Framebuffer_set_pixel 2 2 (fun c => c) (Build_Framebuffer [0; 0; 0] tt) (P 1 1) 9 = None /\
+  option_map Framebuffer_data (src_Framebuffer_set_pixel_bits U2 5 2 2 false (fun c => c) (Build_Framebuffer [255; 255; 255; 255] tt) (P 1 1) 1) = Some [255; 255; 223; 255] /\
+  src_Framebuffer_set_pixel_bits U2 5 2 2 false (fun c => c) (Build_Framebuffer [255; 255] tt) (P 1 1) 1 = None.
 Proof. repeat split; vm_compute; reflexivity. Qed.
